@@ -137,16 +137,21 @@ func LogicCfg(id string, k int, feat uint32, oracles uint32) *Cfg {
 
 // BoundaryTablesCfg: 33 relation tables in one node (33 targets with one child each); focus on the tables around the page boundary.
 func BoundaryTablesCfg(id string, extra int, feat uint32, oracles uint32) *Cfg {
-	c := RelCfg(id, 0, 66+extra, 0, 8, feat|FBuilder, oracles)
-	for t := 0; t < 33; t++ {
+	return BoundaryTablesNCfg(id, 33, extra, feat, oracles)
+}
+
+// BoundaryTablesNCfg: n relation tables (one target each, one child each) in one node; focus on the slots around the end.
+func BoundaryTablesNCfg(id string, n, extra int, feat uint32, oracles uint32) *Cfg {
+	c := RelCfg(id, 0, 2*n+extra, 0, 8, feat|FBuilder, oracles)
+	for t := 0; t < n; t++ {
 		c.Prologue = append(c.Prologue, wx.Op{K: OpNewEntity, A: 0})
 	}
-	for t := 0; t < 33; t++ {
+	for t := 0; t < n; t++ {
 		c.Prologue = append(c.Prologue, wx.Op{K: OpBuilderNew, A: 1, B: 1, C: int8(t), D: 0})
 	}
-	c.Focus = []int{0, 31, 32, 33, 64, 65}
+	c.Focus = []int{0, n - 2, n - 1, n, 2*n - 2, 2*n - 1}
 	for i := 0; i < extra; i++ {
-		c.Focus = append(c.Focus, 66+i)
+		c.Focus = append(c.Focus, 2*n+i)
 	}
 	c.BatchRefs = []int{0}
 	c.RegSpecs = []int{0}
@@ -155,7 +160,13 @@ func BoundaryTablesCfg(id string, extra int, feat uint32, oracles uint32) *Cfg {
 
 // BoundaryNodesCfg: 34 archetype nodes (component sets over six components); focus on the entities around the page boundary.
 func BoundaryNodesCfg(id string, extra int, feat uint32, oracles uint32) *Cfg {
-	c := &Cfg{ID: id, K: 34 + extra, CapInc: 4, Feat: feat | Std, Oracles: oracles, MaxRegs: 1}
+	return BoundaryNodesNCfg(id, 34, extra, feat, oracles)
+}
+
+// BoundaryNodesNCfg: n entities with n different component sets (the graph holds more nodes than that: the nodes on the
+// paths to them exist as well).
+func BoundaryNodesNCfg(id string, n, extra int, feat uint32, oracles uint32) *Cfg {
+	c := &Cfg{ID: id, K: n + extra, CapInc: 4, Feat: feat | Std, Oracles: oracles, MaxRegs: 1}
 	c.Comps = []Kind{KA, KB, KZ, KC, KD, KR}
 	for b := 0; b < 64; b++ {
 		set := []int{}
@@ -166,7 +177,7 @@ func BoundaryNodesCfg(id string, extra int, feat uint32, oracles uint32) *Cfg {
 		}
 		c.Sets = append(c.Sets, set)
 	}
-	for i := 0; i < 34; i++ {
+	for i := 0; i < n; i++ {
 		c.Prologue = append(c.Prologue, wx.Op{K: OpNewEntity, A: int8(i)})
 	}
 	c.Filters = []FSpec{
@@ -176,9 +187,9 @@ func BoundaryNodesCfg(id string, extra int, feat uint32, oracles uint32) *Cfg {
 	c.BatchRefs = []int{1, 3}
 	c.RegSpecs = []int{1, 4}
 	c.Move = []int{0, 1, 4, 5}
-	c.Focus = []int{0, 31, 32, 33}
+	c.Focus = []int{0, n - 3, n - 2, n - 1}
 	for i := 0; i < extra; i++ {
-		c.Focus = append(c.Focus, 34+i)
+		c.Focus = append(c.Focus, n+i)
 	}
 	return c
 }
